@@ -95,7 +95,7 @@ def analyse_create(F):
                 el = v.segs[-1].f(isym("_j"))
                 txt = repr(el)
                 hits = {r_ for a_, r_ in role_atoms.items() if (a_ + "(") in txt}
-                if len(hits) == 1 and eq(v.length(), 2 * h):
+                if len(hits) == 1 and (eq(v.length(), 2 * h) or eq(v.length(), h)):
                     return hits.pop()
             return None
 
@@ -164,6 +164,73 @@ def analyse_create(F):
     out = {"I": I, "ret": ret, "info": info, "h": h, "tr": tr, "trace": I.trace.items}
     _cache[key] = out
     return out
+
+
+def analyse_create_n1(F):
+    """The length-1 instance of `create` (k = 0 rounds), which the n = 2h instance above cannot cover: vectors of symbolic
+    length n1 with the facts 1 <= n1 <= 1, so every `n == 1` / `n != 1` test is decided and no round runs."""
+    key = (id(F), "create_n1")
+    if key in _cache:
+        return _cache[key]
+    n1 = isym("n_one")
+    tr = Tr("ipp")
+    I = H.new_interp(F)
+    I.bounds.add_le(n1, 1)
+    I.bounds.add_le(1, n1)
+
+    def while_hook(I_, e, env):
+        # a loop whose entry condition is decided false at n = 1 does not run
+        shape = loop_shape(e)
+        if shape is None:
+            return NotImplemented
+        cond_e, negate, _body = shape
+        try:
+            c_ = I_.decide(I_.as_cond(I_.ev(cond_e, env)))
+        except Unanalysable:
+            return NotImplemented
+        if isinstance(c_, bool) and (c_ == bool(negate)):
+            return H.UNIT if hasattr(H, "UNIT") else Tup([])
+        return NotImplemented
+
+    I.hooks["while"] = while_hook
+    args = [tr, Pt.atom(ssym("Q")), H.sc_vec("gf", n1), H.sc_vec("hf", n1), H.pt_vec("Gv", n1), H.pt_vec("Hv", n1), H.sc_vec("av", n1), H.sc_vec("bv", n1)]
+    out = {"I": I, "n": n1, "tr": tr}
+    try:
+        out["ret"] = I.call_fn(P_CREATE, args)
+        out["trace"] = I.trace.items
+    except Unanalysable as u:
+        out["error"] = u
+    _cache[key] = out
+    return out
+
+
+def check_create_n1(ck, F, rule="R10.8"):
+    """k = 0: no rounds, result (a[0], b[0]) with empty round lists, and exactly the domain separator absorbed"""
+    A1 = analyse_create_n1(F)
+    where = FX.short(F.fn(P_CREATE)["sp"])
+    if "error" in A1:
+        ck.fail(rule, "length-1:analysable", f"unanalysable: {A1['error'].msg}", A1["error"].where, kind="unanalysable")
+        return A1
+    ret = A1["I"].deref(A1["ret"])
+    flat = []
+
+    def walk(items, cond_depth):
+        for it in items:
+            if it[0] == "op":
+                flat.append((it[1]["kind"], it[1]["label"], cond_depth))
+            elif it[0] == "alt":
+                walk(it[2], cond_depth + 1)
+                walk(it[3], cond_depth + 1)
+            elif it[0] == "star":
+                walk(it[1], cond_depth + 1)
+
+    walk(A1["trace"], 0)
+    ck.require(flat == [("append_message", b"dom-sep", 0), ("append_u64", b"n", 0)], rule, "length-1:schedule", f"a length-1 argument must absorb exactly the inner-product domain separator and n, unconditionally, and nothing else (the verifier absorbs them before its zero rounds); ops are {flat}", where)
+    okr = isinstance(ret, Struct) and isinstance(ret.fields.get("a"), Sc) and isinstance(ret.fields.get("b"), Sc) and str(ret.fields["a"].e) == "av(0)" and str(ret.fields["b"].e) == "bv(0)"
+    ck.require(okr, rule, "length-1:a,b", f"for n = 1 the proof's scalars must be a[0], b[0]; got {ret!r}", where)
+    okl = isinstance(ret, Struct) and all(isinstance(A1["I"].deref(ret.fields.get(f_)), Vec) and eq(A1["I"].deref(ret.fields[f_]).length(), 0) for f_ in ("L_vec", "R_vec"))
+    ck.require(okl, rule, "length-1:no-rounds", f"for n = 1 = 2^0 the proof must have exactly 0 rounds (empty L_vec and R_vec); got {ret!r}", where)
+    return A1
 
 
 # -- reference round (Bulletproofs protocol 2 / dalek notes::inner_product_proof) ----------------
